@@ -3,9 +3,10 @@ C01 — CIM objects survive the CIM-XML wire format unchanged.
 Property theorems only (helper lemmas: Proofs/Lemmas/XmlText.lean, Proofs/Lemmas/CimXml.lean).
 -/
 import Proofs.Lemmas.XmlText
+import Proofs.Lemmas.CimXml12
 
 namespace C01
-open Pywbem.Model Pywbem.Model.XmlText Proofs.XmlText
+open Pywbem.Model Pywbem.Model.XmlText Proofs.XmlText Proofs.CimXml Pywbem.Proto
 
 /-- **Text level, every string.** What the receiving SAX handler gets for character data written by
     minidom is the end-of-line-normalised string — for every string of XML characters, of any
@@ -33,5 +34,177 @@ theorem C01_attr_roundtrip (s : Str) (h : ∀ c ∈ s, isXmlChar c = true)
 
 /-- non-vacuity: a string with markup, blanks at both ends, `]]>`, LF, TAB and an astral character -/
 example : wireText " a&b<c>\"]]>\n\t😀 ".toList = some " a&b<c>\"]]>\n\t😀 ".toList := by decide
+
+/-! ## Object level
+
+Specification (visible in Proofs/Lemmas/CimXml.lean): `Spec` (abstract predicates `validDt`, `embInstOk`,
+`embClsOk`), `CodecOk C S` (hypotheses about Python's float formatting/parsing, CIMDateTime and expat on
+embedded-object text — a hypothesis record, not an axiom), `Sendable S o` (which objects), `wdObj`
+(the object with DSP0201 defaults filled in), `embDepth`.  All theorems below hold for EVERY codec `C`
+satisfying `CodecOk`, every object, every nesting depth. -/
+
+/-- the hypothesis record is satisfiable -/
+example : CodecOk toyCodec toySpec := toyCodecOk
+
+/-- **`int(str(v)) == v`** for every integer (the text of every integer-typed value and keybinding) -/
+theorem C01_int_text_roundtrip (v : Int) : pyInt (intToStr v) = some v := pyInt_intToStr v
+
+/-- **scalar round trip**: the text `atomic_to_cim_xml` writes for a typed scalar (string, char16,
+    boolean, the eight integer types, real32/real64, datetime), converted back under its CIM type -/
+theorem C01_atom_roundtrip (C : DecCodec) (S : Spec) (hC : CodecOk C S) (a : Atom) (ty : Str)
+    (hty : typeName a = some ty) (hok : AtomOk S a) :
+    unpackSingle C (atomText C.toCodec a) (some ty) = .ok (wdAtom C.toCodec a) :=
+  unpackSingle_atom C S hC a ty ⟨hty, hok⟩
+
+/-- untyped Python numbers (keybindings without TYPE) -/
+theorem C01_atom_untyped_roundtrip (C : DecCodec) (S : Spec) (hC : CodecOk C S) :
+    (∀ v : Int, unpackSingle C (atomText C.toCodec (.pyint v)) none = .ok (wdAtom C.toCodec (.pyint v))) ∧
+    (∀ b : UInt64, unpackSingle C (atomText C.toCodec (.pyfloat b)) none = .ok (wdAtom C.toCodec (.pyfloat b))) := by
+  constructor
+  · intro v; simp only [atomText, wdAtom, unpackSingle_none]; exact unpackNumeric_pyint C v
+  · intro b; simp only [atomText, wdAtom, unpackSingle_none]; exact unpackNumeric_pyfloat C S hC b
+
+/-- **typed value round trip**: NULL, scalars, arrays — including NULL entries and the empty array -/
+theorem C01_value_roundtrip (C : DecCodec) (S : Spec) (hC : CodecOk C S) (ty : Str) (v : Val)
+    (h : PlainVal S ty v) : unpackValue C ty (encVal C.toCodec v) = .ok (wdVal C.toCodec v) := by
+  have := unpackValue_plain C S hC ty v h [] [] (allNames_nil _) (by simp) (by simp)
+  rwa [List.nil_append] at this
+
+/-- non-vacuity: an array with a NULL entry and a boundary number -/
+example : PlainVal toySpec "sint8".toList (.array [.int .s8 (-128), .null, .int .s8 127]) := by
+  intro a ha
+  simp at ha
+  rcases ha with rfl | rfl | rfl
+  · exact Or.inr ⟨rfl, by simp [AtomOk, IntTy.lo, IntTy.hi]⟩
+  · exact Or.inl rfl
+  · exact Or.inr ⟨rfl, by simp [AtomOk, IntTy.lo, IntTy.hi]⟩
+
+/-- **path round trip**: all six element forms (INSTANCENAME, LOCALINSTANCEPATH, INSTANCEPATH, CLASSNAME,
+    LOCALCLASSPATH, CLASSPATH), keybindings of every kind, reference keys nested to ANY depth
+    (mutual structural induction over Path / Key / List Key) -/
+theorem C01_path_roundtrip (C : DecCodec) (S : Spec) (hC : CodecOk C S) (p : Path) (h : SendablePath S p) :
+    decPathAny C (encPath C.toCodec p) = .ok (wdPath C.toCodec p) := rt_path C S hC p h
+
+theorem C01_qualifier_roundtrip (C : DecCodec) (S : Spec) (hC : CodecOk C S) (q : Qual) (h : SendableQual S q) :
+    decQualifier C (encQual C.toCodec q) = .ok (wdQual C.toCodec q) := rt_qual C S hC q h
+
+/-- three element forms (PROPERTY, PROPERTY.ARRAY, PROPERTY.REFERENCE), embedded objects to depth `d` -/
+theorem C01_property_roundtrip (C : DecCodec) (S : Spec) (hC : CodecOk C S) (p : Prop_) (h : SendableProp S p)
+    (d : Nat) (hd : depthProp p ≤ d) :
+    decode C d (encProp C.toCodec p) = .ok (.prop (wdProp C.toCodec p)) := rt_prop_top C S hC p d h hd
+
+/-- four forms (INSTANCE, VALUE.NAMEDINSTANCE, VALUE.OBJECTWITHLOCALPATH, VALUE.INSTANCEWITHPATH) -/
+theorem C01_instance_roundtrip (C : DecCodec) (S : Spec) (hC : CodecOk C S) (i : Inst) (h : SendableInst S i)
+    (d : Nat) (hd : depthInst i ≤ d) :
+    decode C d (encInst C.toCodec i) = .ok (.inst (wdInst C.toCodec i)) := rt_inst_top C S hC i d h hd
+
+/-- four forms (PARAMETER, PARAMETER.REFERENCE, PARAMETER.ARRAY, PARAMETER.REFARRAY) -/
+theorem C01_parameter_roundtrip (C : DecCodec) (S : Spec) (hC : CodecOk C S) (p : Param) (h : SendableParam S p) :
+    decParameter C (encParam C.toCodec p) = .ok (wdParam C.toCodec p) := rt_param C S hC p h
+
+theorem C01_method_roundtrip (C : DecCodec) (S : Spec) (hC : CodecOk C S) (m : Meth) (h : SendableMeth S m) :
+    decMethod C (encMeth C.toCodec m) = .ok (wdMeth C.toCodec m) := rt_meth C S hC m h
+
+theorem C01_class_roundtrip (C : DecCodec) (S : Spec) (hC : CodecOk C S) (c : Cls) (h : SendableCls S c)
+    (d : Nat) (hd : depthCls c ≤ d) :
+    decClass C (embAt C d) (encCls C.toCodec c) = .ok (wdCls C.toCodec c) := rt_cls C S hC c d h hd
+
+theorem C01_qualdecl_roundtrip (C : DecCodec) (S : Spec) (hC : CodecOk C S) (q : QualDecl)
+    (h : SendableQualDecl S q) : decQualDecl C (encQualDecl C.toCodec q) = .ok (wdQualDecl C.toCodec q) :=
+  rt_qualdecl C S hC q h
+
+/-- **C01, first trip.**  Every sendable CIM object (path, instance, class, property, method, parameter,
+    qualifier, qualifier declaration; embedded instances/classes nested to any depth), encoded by
+    `tocimxml()` and parsed by `TupleParser` with at least `embDepth o` levels of embedded-object
+    parsing allowed, is the same object with the DSP0201 defaults filled in. -/
+theorem C01_roundtrip (C : DecCodec) (S : Spec) (hC : CodecOk C S) (o : Obj) (h : Sendable S o)
+    (d : Nat) (hd : embDepth o ≤ d) :
+    decode C d (encObj C.toCodec o) = .ok (wdObj C.toCodec o) := rt_obj C S hC o h d hd
+
+/-- non-vacuity: an instance with a path whose keybindings hold a nested reference and an untyped
+    number, an embedded instance, and an array property with a NULL entry -/
+def exampleInst : Inst :=
+  .mk "CIM_Foo".toList
+    (some (.inst "CIM_Foo".toList (some "host".toList) (some "root/cimv2".toList)
+      [.mk (some "Ref".toList) (.ref (.inst "CIM_Bar".toList none (some "root".toList)
+          [.mk (some "Id".toList) (.int .u8 7), .mk (some "Inner".toList) (.ref (.cls "CIM_Baz".toList none none))])),
+       .mk (some "n".toList) (.pyint 3)]))
+    [.mk "Emb".toList "string".toList (.scalar (.einst toyInst)) false none none none none (some "instance".toList) [],
+     .mk "Arr".toList "uint8".toList (.array [.int .u8 1, .null, .int .u8 255]) true (some 3) none none none none
+       [.mk "Description".toList "string".toList (.scalar (.str " a<b&c ".toList)) none none none none none]]
+    []
+
+theorem exampleInst_sendable : Sendable toySpec (.inst exampleInst) := by
+  simp [Sendable, SendableInst, SendableInstBody, SendablePropList, SendableProp, SendablePropVal, SendableEmbAtom,
+    SendableQuals, SendableQual, SendablePath, SendableKeys, SendableKey, exampleInst, toyInst, toySpec, PlainVal,
+    PlainAtom, AtomOk, typeName, IntTy.name, IntTy.lo, IntTy.hi, NoDupNames, NoDupKeyNames, Key.name, lowerAscii,
+    Prop_.name, Qual.name]
+
+example : embDepth (.inst exampleInst) = 1 := by decide
+
+example : decode toyCodec 1 (encObj toyCodec.toCodec (.inst exampleInst)) =
+    .ok (wdObj toyCodec.toCodec (.inst exampleInst)) :=
+  C01_roundtrip toyCodec toySpec toyCodecOk _ exampleInst_sendable 1 (by decide)
+
+/-- **C01, second trip.**  The object that came back, sent once more, yields byte-identical XML and the
+    same object: "with defaults" is idempotent (for every object, sendable or not). -/
+theorem C01_second_trip (C : DecCodec) (S : Spec) (hC : CodecOk C S) (o : Obj) :
+    encObj C.toCodec (wdObj C.toCodec (wdObj C.toCodec o)) = encObj C.toCodec (wdObj C.toCodec o) ∧
+    wdObj C.toCodec (wdObj C.toCodec o) = wdObj C.toCodec o := by
+  have h := idem_obj C S hC o
+  exact ⟨by rw [h], h⟩
+
+/-- both trips in one statement: whatever the first trip returned, re-encoding it gives the XML of
+    `wdObj o`, and a second "with defaults" does not change it -/
+theorem C01_second_trip_xml (C : DecCodec) (S : Spec) (hC : CodecOk C S) (o : Obj) (h : Sendable S o)
+    (d : Nat) (hd : embDepth o ≤ d) (o' : Obj) (h1 : decode C d (encObj C.toCodec o) = .ok o') :
+    Xml.ser (encObj C.toCodec (wdObj C.toCodec o')) = Xml.ser (encObj C.toCodec o') ∧ wdObj C.toCodec o' = o' := by
+  rw [C01_roundtrip C S hC o h d hd] at h1
+  cases h1
+  have h2 := idem_obj C S hC o
+  exact ⟨by rw [h2], h2⟩
+
+/-- **C01, child order.**  The names of the properties, methods, parameters, qualifiers and keybindings
+    of the decoded object, in order, are those of the original (`childNames` lists them kind by kind). -/
+theorem C01_order_preserved (C : DecCodec) (S : Spec) (hC : CodecOk C S) (o : Obj) (h : Sendable S o)
+    (d : Nat) (hd : embDepth o ≤ d) (o' : Obj) (h1 : decode C d (encObj C.toCodec o) = .ok o') :
+    childNames o' = childNames o := by
+  rw [C01_roundtrip C S hC o h d hd] at h1
+  cases h1
+  exact childNames_wdObj C o
+
+/-- what came back is itself sendable, with the same embedded depth (`EmbClosed`: the embedded objects
+    the XML parser re-reads faithfully stay so after one trip) -/
+theorem C01_sendable_preserved (C : DecCodec) (S : Spec) (hE : EmbClosed C.toCodec S) (o : Obj)
+    (h : Sendable S o) : Sendable S (wdObj C.toCodec o) ∧ embDepth (wdObj C.toCodec o) = embDepth o :=
+  ⟨pres_obj C S hE o h, depth_obj C o⟩
+
+/-- **C01, second trip, decoded.**  Sending the object that came back and parsing it once more returns
+    that very object: `decode (encode (decode (encode o))) = decode (encode o)`. -/
+theorem C01_second_trip_decode (C : DecCodec) (S : Spec) (hC : CodecOk C S) (hE : EmbClosed C.toCodec S)
+    (o : Obj) (h : Sendable S o) (d : Nat) (hd : embDepth o ≤ d) (o' : Obj)
+    (h1 : decode C d (encObj C.toCodec o) = .ok o') :
+    decode C d (encObj C.toCodec o') = .ok o' := by
+  rw [C01_roundtrip C S hC o h d hd] at h1
+  cases h1
+  have h2 := C01_roundtrip C S hC _ (pres_obj C S hE o h) d (by rw [depth_obj]; exact hd)
+  rw [idem_obj C S hC o] at h2
+  exact h2
+
+example : EmbClosed toyCodec.toCodec toySpec := toyEmbClosed
+
+/-! ### the Sendable clauses are needed (witnesses, for every codec) -/
+
+/-- "a method has a return type" is needed: without it the own output is rejected -/
+theorem C01_method_roundtrip_fails_without_type (C : DecCodec) (S : Spec) (hC : CodecOk C S) (name : Str) :
+    decMethod C (encMeth C.toCodec (.mk name none [] none none [])) ≠
+      .ok (wdMeth C.toCodec (.mk name none [] none none [])) := by
+  rw [meth_without_type_rejected C S hC]
+  intro h; cases h
+
+/-- "a keybinding has a name" is needed: an unnamed key comes back named '' -/
+theorem C01_key_roundtrip_fails_unnamed (C : DecCodec) (v : Int) :
+    decKeybinding C (encKey C.toCodec (.mk none (.pyint v))) ≠ .ok (wdKey C.toCodec (.mk none (.pyint v))) :=
+  unnamed_key_differs C v
 
 end C01
